@@ -149,6 +149,10 @@ func (g *Graph) InEdges(v Vertex) []Vertex {
 // this graph will impact the original Graph. You must call Copy on the
 // result if you want to have a copy.
 func (g *Graph) Reverse() *Graph {
+	// The reversed graph shares our maps, so they must exist first: reversing
+	// a zero-value Graph would otherwise produce an unrelated empty graph.
+	g.init()
+
 	return &Graph{
 		adjacencyOut: g.adjacencyIn,
 		adjacencyIn:  g.adjacencyOut,
